@@ -16,9 +16,9 @@ package main
 
 import (
 	"fmt"
-	"os"
 	"go/token"
 	"go/types"
+	"os"
 	"regexp"
 	"strings"
 )
